@@ -27,6 +27,7 @@ type ctx struct {
 	n        int
 	start    int
 	careful  bool
+	dry      bool
 	exec     func(op string, args []sx) sx
 }
 
@@ -35,6 +36,11 @@ func (c *ctx) emit(cs sx) {
 	idx := c.n
 	c.n++
 	if idx < c.start {
+		return
+	}
+	if c.dry {
+		c.out.WriteString(cs.String())
+		c.out.WriteByte('\n')
 		return
 	}
 	if c.careful {
@@ -79,6 +85,7 @@ func main() {
 	outp := flag.String("out", "-", "output file")
 	replay := flag.String("replay", "", "file of abstract cases to execute instead of generating")
 	start := flag.Int("start", 0, "skip cases before this index (resume after a crash)")
+	dry := flag.Bool("dry", false, "print the abstract cases without executing them")
 	careful := flag.Bool("careful", false, "flush around every case so a fatal error identifies its case")
 	flag.Parse()
 	if flag.NArg() < 1 {
@@ -110,7 +117,7 @@ func main() {
 		os.Exit(2)
 	}
 	c := &ctx{rng: rand.New(rand.NewSource(*seed)), thorough: *tier == "thorough",
-		out: bufio.NewWriterSize(f, 1<<20), start: *start, careful: *careful, exec: p.exec}
+		out: bufio.NewWriterSize(f, 1<<20), start: *start, careful: *careful, dry: *dry, exec: p.exec}
 	if *replay != "" {
 		data, err := os.ReadFile(*replay)
 		if err != nil {
